@@ -5,12 +5,21 @@ exact cell boundaries, +-1e5; adds, removes, moves, protocol-violating sequences
 model P2P.Model.Cells. Oracle: (1) on protocol-obeying histories the distance-filtered query equals
 brute force; (2) monitor on real pipeline runs: every real get_near_cells call, filtered at the
 cell size, is compared with brute force over the live structure; lost / ghost neighbours are
-attributed to the call site that moved or removed an atom without updating the cell list."""
+attributed to the call site that moved or removed an atom without updating the cell list;
+(3) the goal clause at the callers: where the calling function filters the returned atoms with a
+distance of its own (hydrogen-bond detection: the literal in `dist < 4.3` of optimize_hydrogens,
+debumper: the sum of the two bump radii), the brute-force comparison is made at THAT distance, read
+from the caller's source / constants — a cell list whose cell size is smaller than the caller's cutoff
+loses atoms outside the 27 adjacent cells (kind `cutoff-exceeds-cell-size`). Monitored runs include
+water-only optimisation (--noopt) and default runs on inputs whose waters have partners in
+hydrogen-bond range."""
 
 from __future__ import annotations
 
+import inspect
 import math
 import random
+import re
 import sys
 
 import gen_struct as G
@@ -196,6 +205,47 @@ class Monitor:
         self.last_move = {}  # id(atom) -> site of last coordinate write while registered
         self.last_unreg = {}
         self.removed_site = {}
+        self.good_witness = set()
+        self.cutoff_checked = 0  # queries whose caller has a distance filter of its own
+        self.cutoff_over = 0  # ... and that filter reaches further than the cell size of the list queried
+        self.cutoffs = {}  # code object -> ("literal", value) | ("bump-radii", (hydrogen, heavy)) | None
+        self.cutoff_seen = {}  # caller -> (largest cutoff applied, cell size)
+
+    def caller_frame(self, depth=2):
+        """the pdb2pqr frame that issued the neighbour query (same walk as site())"""
+        f = sys._getframe(depth)
+        while f is not None:
+            q = getattr(f.f_code, "co_qualname", f.f_code.co_name)
+            fn = f.f_code.co_filename
+            if "pdb2pqr" in fn and not q.startswith(("Cells.", "Atom.__setattr__")) and "harness" not in fn:
+                return f
+            f = f.f_back
+        return None
+
+    def caller_filter(self, frame):
+        """the distance the CALLER filters the returned atoms with, read from the caller's source text and the
+        constants of its module (never from the cell list): `dist < 4.3` -> ("literal", 4.3);
+        `cutoff = atom_size + other_size; dist < cutoff` -> ("bump-radii", (BUMP_HYDROGEN_SIZE, BUMP_HEAVY_SIZE));
+        None when the caller has no distance filter between the query atom and a returned atom"""
+        code = frame.f_code
+        if code in self.cutoffs:
+            return self.cutoffs[code]
+        out = None
+        try:
+            src = inspect.getsource(code)
+        except (OSError, TypeError):
+            src = ""
+        src = "\n".join(l.split("#", 1)[0] for l in src.splitlines())
+        lits = [float(m) for m in re.findall(r"\bdist\s*<=?\s*([0-9]+(?:\.[0-9]*)?)(?![\w.])", src)]
+        if lits and "get_near_cells" in src:
+            out = ("literal", max(lits))
+        elif re.search(r"\bcutoff\s*=\s*atom_size\s*\+\s*other_size", src) and re.search(r"\bdist\s*<=?\s*cutoff\b", src):
+            g = frame.f_globals
+            hs, vs = g.get("BUMP_HYDROGEN_SIZE"), g.get("BUMP_HEAVY_SIZE")
+            if isinstance(hs, (int, float)) and isinstance(vs, (int, float)):
+                out = ("bump-radii", (float(hs), float(vs)))
+        self.cutoffs[code] = out
+        return out
 
     def site(self, depth=2):
         f = sys._getframe(depth)
@@ -299,18 +349,67 @@ class Monitor:
 
             return (c(a.x), c(a.y), c(a.z))
 
+        def cause_of(k, b):
+            if b.cell is None:
+                return ("unregistered", self.last_unreg.get(k, "never-added"))
+            if b.cell != key_of(b):
+                return ("stale", self.last_move.get(k, "cell attribute shared with another cell list"))
+            if atom.cell != key_of(atom):
+                return ("query-atom-stale", self.last_move.get(id(atom), "cell attribute shared with another cell list"))
+            return ("registered-in-wrong-list", "?")
+
         for k, b in want.items():
             if k not in got:
-                if b.cell is None:
-                    cause = ("unregistered", self.last_unreg.get(k, "never-added"))
-                elif b.cell != key_of(b):
-                    cause = ("stale", self.last_move.get(k, "cell attribute shared with another cell list"))
-                elif atom.cell != key_of(atom):
-                    cause = ("query-atom-stale", self.last_move.get(id(atom), "cell attribute shared with another cell list"))
-                else:
-                    cause = ("registered-in-wrong-list", "?")
+                cause = cause_of(k, b)
                 sig = ("lost", size, cause[0], cause[1])
                 self.problems.setdefault(sig, f"query for {atom.residue} {atom.name} (from {caller}) misses {b.residue} {b.name} at {math.dist(p, (b.x, b.y, b.z)):.2f} A: {cause[0]} since {cause[1]}")
+        # the goal clause at the caller: after the CALLER's distance filter the result equals brute force
+        frame = self.caller_frame(3)
+        filt = self.caller_filter(frame) if frame is not None else None
+        if filt is not None:
+            self.cutoff_checked += 1
+            if filt[0] == "literal":
+                def cut_of(b, _c=filt[1]):
+                    return _c
+                reach = filt[1]
+            else:
+                hs, vs = filt[1]
+                def radius(a):
+                    return hs if getattr(a, "is_hydrogen", False) else vs
+                def cut_of(b, _ra=radius(atom)):
+                    return _ra + radius(b)
+                reach = radius(atom) + max(hs, vs)
+            prev = self.cutoff_seen.get(caller, (0.0, size))
+            self.cutoff_seen[caller] = (max(reach, prev[0]), min(size, prev[1]))
+            if reach > size:
+                self.cutoff_over += 1
+                resids = {id(b) for b in res}
+                ka = key_of(atom)
+                for b in live:
+                    if b is atom or id(b) in resids:
+                        continue
+                    d = math.dist(p, (b.x, b.y, b.z))
+                    c = cut_of(b)
+                    if d < size or not d < c:
+                        continue  # closer than the cell size: reported above
+                    kb = key_of(b)
+                    if all(abs(ka[i] - kb[i]) <= size for i in range(3)):
+                        # a list of this cell size that is in step with the coordinates returns b: the list is out of step
+                        cause = cause_of(id(b), b)
+                        sig = ("lost", size, cause[0], cause[1])
+                        self.problems.setdefault(sig, f"query for {atom.residue} {atom.name} (from {caller}) misses {b.residue} {b.name} at {d:.2f} A: {cause[0]} since {cause[1]}")
+                    else:
+                        sig = ("cutoff-exceeds-cell-size", size, f"caller keeps atoms closer than {c:g} A, cell size {size:g} A", caller)
+                        # witness: prefer a lost atom the detection could pair with (N/O of another residue) over any lost atom
+                        good = b.name[:1] in ("N", "O") and b.residue is not atom.residue
+                        if sig in self.problems and not (good and sig not in self.good_witness):
+                            continue
+                        if good:
+                            self.good_witness.add(sig)
+                        self.problems[sig] = (
+                            f"query for {atom.residue} {atom.name} (from {caller}, cell size {size:g} A) misses {b.residue} {b.name} at {d:.2f} A although {caller} keeps every atom closer than {c:g} A: "
+                            f"{b.name} lies in cell {kb}, outside the 27 cells around {ka}"
+                        )
         inrange = [id(b) for b in res if math.dist(p, (b.x, b.y, b.z)) < size]
         if len(inrange) != len(set(inrange)):
             k = next(i for i in inrange if inrange.count(i) > 1)
@@ -323,9 +422,9 @@ class Monitor:
                 self.problems.setdefault(sig, f"query for {atom.residue} {atom.name} (from {caller}) returns {b.name}, which is no longer in the structure (removed in {self.removed_site.get(k, '?')})")
 
 
-def monitor_runs(ctx: Ctx, n):
+def monitor_runs(ctx: Ctx, n, seen=None):
     rng = ctx.rng
-    seen = set()
+    seen = set() if seen is None else seen
     for ci in range(n):
         # packed fragments provoke debumping, flips and H-bond optimisation
         must = rng.choice(["ASN", "GLN", "HIS", "SER", "THR", "TYR", "ASP", "GLU", None, None])
@@ -367,27 +466,91 @@ def monitor_runs(ctx: Ctx, n):
         finally:
             mon.uninstall()
         ctx.evaluations += 1
-        ctx.count("monitored-runs", r.status)
-        ctx.count("queries", "total", mon.queries)
-        ctx.count("queries", "checked", mon.checked)
         ctx.distinct.add(("run", must, len(res), len(waters) > 0))
-        for sig, msg in mon.problems.items():
-            s = {"kind": sig[0], "cause": sig[2], "site": sig[3]}
-            k = tuple(s.items())
-            if k in seen:
-                continue
-            seen.add(k)
-            ctx.violate(s, msg, {"pdb": text, "options": opts})
-            ctx.sample({"signature": s, "message": msg}, limit=10)
+        ctx.count("monitored-runs", ("water-only optimisation (--noopt)" if "--noopt" in opts else "full optimisation") + (", with waters" if waters else ", no waters"))
+        report_monitor(ctx, mon, r, text, opts, seen)
+
+
+def report_monitor(ctx: Ctx, mon, r, text, opts, seen):
+    ctx.count("monitored-runs", r.status)
+    ctx.count("queries", "total", mon.queries)
+    ctx.count("queries", "checked", mon.checked)
+    ctx.count("queries", "compared at the caller's own cutoff", mon.cutoff_checked)
+    ctx.count("queries", "caller's cutoff beyond the cell size", mon.cutoff_over)
+    for who, (reach, size) in mon.cutoff_seen.items():
+        ctx.count("caller cutoffs", f"{who}: keeps < {reach:g} A, smallest cell size queried {size:g} A")
+    for sig, msg in mon.problems.items():
+        s = {"kind": sig[0], "cause": sig[2], "site": sig[3]}
+        k = tuple(s.items())
+        if k in seen:
+            continue
+        seen.add(k)
+        ctx.violate(s, msg, {"pdb": text, "options": opts})
+        ctx.sample({"signature": s, "message": msg}, limit=10)
+
+
+def partner_water(rng, atoms, resseq):
+    """a water oxygen in hydrogen-bond range (2.6-4.2 A) of a donor/acceptor (N/O of the fragment or another water),
+    not closer than 2.4 A to anything; None when no place is found"""
+    polar = [a for a in atoms if a.name[:1] in ("N", "O")]
+    if not polar:
+        return None
+    for _ in range(200):
+        x = rng.choice(polar)
+        v = [rng.gauss(0, 1) for _ in range(3)]
+        n = math.sqrt(sum(c * c for c in v)) or 1.0
+        d = rng.uniform(2.6, 4.2)
+        p = [x.x + v[0] / n * d, x.y + v[1] / n * d, x.z + v[2] / n * d]
+        if min(math.dist(p, (a.x, a.y, a.z)) for a in atoms) >= 2.4:
+            l = f"HETATM    1  O   HOH A{resseq:4d}    {p[0]:8.3f}{p[1]:8.3f}{p[2]:8.3f}  1.00 20.00           O"
+            return [G.Atom(l)]
+    return None
+
+
+def monitor_water_runs(ctx: Ctx, n, seen=None):
+    """the hydrogen-bond detection of the optimisation stage on structures WITH waters, on both ways into it:
+    water-only optimisation (--noopt -> initialize_wat_optimization) and full optimisation (default options);
+    every water has a donor/acceptor or another water between 2.6 and 4.2 A, i.e. inside the distance the
+    detection keeps and mostly outside the query atom's own cell"""
+    rng = ctx.rng
+    seen = set() if seen is None else seen
+    for ci in range(n):
+        must = rng.choice(["ASN", "GLN", "HIS", "SER", "THR", "TYR", "ASP", "GLU", "LYS", "ARG", None])
+        _f, res = G.window(rng, rng.choice([3, 5, 8]), must_have=must)
+        G.set_chain(res, "A", 1)
+        atoms = [a for rr in res for a in rr]
+        waters = []
+        for k in range(rng.choice([3, 6, 10])):
+            w = partner_water(rng, atoms + [a for ww in waters for a in ww], 800 + k)
+            if w:
+                waters.append(w)
+        text = G.to_pdb([res], waters)
+        ff = rng.choice(["AMBER", "PARSE", "CHARMM", "SWANSON", "TYL06", "PEOEPB"])
+        path = "water-only optimisation (--noopt)" if ci % 2 == 0 else "full optimisation"
+        opts = [f"--ff={ff}", "--whitespace"] + (["--noopt"] if ci % 2 == 0 else []) + (["--nodebump"] if rng.random() < 0.2 else [])
+        mon = Monitor()
+        mon.install()
+        try:
+            r = G.run_pipeline(text, opts)
+        finally:
+            mon.uninstall()
+        ctx.evaluations += 1
+        ctx.count("monitored-runs", f"waters with partners in hydrogen-bond range, {path}")
+        ctx.count("waters in hydrogen-bond range per run", "3+" if len(waters) >= 3 else str(len(waters)))
+        ctx.distinct.add(("water-run", must, len(res), len(waters), ci % 2))
+        report_monitor(ctx, mon, r, text, opts, seen)
 
 
 def run(ctx: Ctx):
     ctx.extra["rule"] = (
         "random operation sequences on cells.Cells (2-20 atoms, 10-120 operations, sizes 2 and 5, coordinates on and around cell boundaries, zero, negative, +-1e5; protocol-obeying and free sequences); "
-        "real pipeline runs of packed windows (4-12 residues + waters) with every neighbour query compared with brute force; a case is (kind, size, protocol, atoms, length class) / (forced residue, size, waters); distinct counts distinct tuples"
+        "real pipeline runs of packed windows (4-12 residues + waters) with every neighbour query compared with brute force (at the cell size, and at the calling function's own distance filter where it has one); "
+        "real runs of windows (3-8 residues) with 3-10 waters placed in hydrogen-bond range of donors/acceptors, alternately with --noopt (water-only optimisation) and default options; a case is (kind, size, protocol, atoms, length class) / (forced residue, size, waters); distinct counts distinct tuples"
     )
     tie_histories(ctx, ctx.scale(300, 20000))
-    monitor_runs(ctx, ctx.scale(25, 1200))
+    seen = set()
+    monitor_runs(ctx, ctx.scale(25, 1200), seen)
+    monitor_water_runs(ctx, ctx.scale(8, 300), seen)
 
 
 def replay(ctx: Ctx, data: dict) -> bool:
@@ -402,5 +565,9 @@ def replay(ctx: Ctx, data: dict) -> bool:
         print("status:", r.status, "queries:", mon.queries)
         for sig, msg in mon.problems.items():
             print(sig, msg)
+        print("caller cutoffs (largest distance kept, smallest cell size queried):", mon.cutoff_seen)
+        want = data.get("signature")
+        if isinstance(want, dict) and want:
+            return any({"kind": sig[0], "cause": sig[2], "site": sig[3]} == want for sig in mon.problems)
         return bool(mon.problems)
     return False
